@@ -11,7 +11,6 @@ import (
 	"pgregory.net/rapid"
 )
 
-var gatedFns = map[string]bool{vmcommon.BuiltInFunctionMultiESDTNFTTransfer: true, vmcommon.BuiltInFunctionESDTNFTAddURI: true, vmcommon.BuiltInFunctionESDTNFTUpdateAttributes: true}
 
 type epochCase struct {
 	Activation uint32   `json:"activation"`
@@ -159,6 +158,8 @@ func c18Binding(spec WorldSpec) (string, string, map[string]int) {
 		}
 		return "", ""
 	}
+	// the node dispatches the three gated functions only once their activation epoch is confirmed
+	e.Apply(Op{Kind: "epoch", Epoch: spec.ActivationEpoch})
 	for _, op := range c18Script(spec) {
 		if sig, msg := step(op); sig != "" {
 			return sig, msg, okCount
